@@ -171,25 +171,32 @@ theorem lift_rmWalk : ∀ (fuel : Nat) (d : Str) (t : State), GoodS t →
       rw [prim_scandir, prim_scandir, hr, hf]
       exact ⟨lift_err _ _ _, G1⟩
 
+theorem lift_removetreeBody (fuel : Nat) (t : State) (G : GoodS t) (p np : Str) :
+    Lift (removetreeBody (PF F) fuel t p np) (removetreeBody PR fuel t p np) ∧ GoodS (removetreeBody PR fuel t p np).1 := by
+  simp only [removetreeBody]
+  obtain ⟨hl, G1⟩ := lift_rmWalk F hF fuel np t G
+  rcases lift_cases hl with ⟨s, v, hr, hf⟩ | ⟨s, e, e', hr, hf⟩
+  · rw [hr] at G1
+    rw [hr, hf]
+    simp only
+    split
+    · exact ⟨lift_refl _, G1⟩
+    · exact ⟨lift_call F hF s G1 (.removedir p) rfl, goodS_step G1 _ (by intro h; cases h)⟩
+  · rw [hr] at G1
+    rw [hr, hf]
+    exact ⟨lift_err _ _ _, G1⟩
+
 theorem lift_removetree (fuel : Nat) (t : State) (G : GoodS t) (p : Str) :
     Lift (removetree (PF F) fuel t p) (removetree PR fuel t p) ∧ GoodS (removetree PR fuel t p).1 := by
   simp only [removetree]
-  cases normRes p with
-  | err e => exact ⟨lift_refl _, G⟩
-  | ok np =>
-    simp only [removetreeBody]
-    obtain ⟨hl, G1⟩ := lift_rmWalk F hF fuel np t G
-    rcases lift_cases hl with ⟨s, v, hr, hf⟩ | ⟨s, e, e', hr, hf⟩
-    · rw [hr] at G1
-      rw [hr, hf]
-      simp only
-      split
-      · exact ⟨lift_refl _, G1⟩
-      · exact ⟨lift_call F hF s G1 (.removedir p) rfl, goodS_step G1 _ (by intro h; cases h)⟩
-    · rw [hr] at G1
-      rw [hr, hf]
-      exact ⟨lift_err _ _ _, G1⟩
-
+  obtain ⟨hl, G1⟩ := lift_validateOf F hF t G p
+  rcases lift_cases hl with ⟨s, np, hr, hf⟩ | ⟨s, e, e', hr, hf⟩
+  · rw [hr] at G1
+    rw [prim_validatepath, prim_validatepath, hr, hf]
+    exact lift_removetreeBody F hF fuel s G1 p np
+  · rw [hr] at G1
+    rw [prim_validatepath, prim_validatepath, hr, hf]
+    exact ⟨lift_err _ _ _, G1⟩
 
 /-! ### `copy_dir` -/
 
